@@ -171,20 +171,21 @@ Print Assumptions C05_source_avx2_shoup16.
    layer) and ntt_loop_avx2_unrolled::run (eight/sixteen lanes through the AVX2 butterfly, an SSE register for the half-filled rows of
    16-bit limbs, then the scalar layer) -- every index expression, loop bound, pointer advance, bounds-checked and alignment-checked
    access -- all return the SAME array: Structural.ntt_core on the library's flat tables.  Every degree 8..2^30, every limb type. *)
-Theorem C05_source_loops_all_builds : forall k p om x0, (3 <= k <= 30)%nat -> 1 < p -> length x0 = (2 ^ k)%nat ->
-  let W := FlatTable.flat p k om in let tws := fun lvl => List.nth lvl (Tables.prep p k om) nil in
+Theorem C05_source_loops_all_builds : forall k p om padW padW' x0, (3 <= k <= 30)%nat -> 1 < p -> List.Forall (fun v => 0 <= v < p) padW -> length x0 = (2 ^ k)%nat ->
+  let W := (FlatTable.flat p k om ++ padW)%list in let W' := fun w => (List.map (fun v => (v * 2 ^ w) / p) (FlatTable.flat p k om) ++ padW')%list in
+  let tws := fun lvl => List.nth lvl (Tables.prep p k om) nil in
   let out w := Some ((Structural.ntt_core w p k tws x0, Z.of_nat (2 ^ k), Z.of_nat (FlatTable.off k (k - 2)), Z.of_nat (FlatTable.off k (k - 2))), true) in
-  (p < 2 ^ 14 -> List.Forall (fun v => 0 <= v < 2 ^ 16) x0 ->
-     GenLoop.gen_ntt_serial_u16 (Z.of_nat (2 ^ k)) x0 0 W 0 (List.map (fun v => (v * 2 ^ 16) / p) W) 0 p = out 16 /\
-     GenLoop.gen_ntt_sse_u16 (Z.of_nat (2 ^ k)) x0 0 W 0 (List.map (fun v => (v * 2 ^ 16) / p) W) 0 p = out 16 /\
-     GenLoop.gen_ntt_avx2_u16 (Z.of_nat (2 ^ k)) x0 0 W 0 (List.map (fun v => (v * 2 ^ 16) / p) W) 0 p = out 16) /\
-  (4 * p <= 2 ^ 32 -> List.Forall (fun v => 0 <= v < 2 ^ 32) x0 ->
-     GenLoop.gen_ntt_serial_u32 (Z.of_nat (2 ^ k)) x0 0 W 0 (List.map (fun v => (v * 2 ^ 32) / p) W) 0 p = out 32 /\
-     GenLoop.gen_ntt_sse_u32 (Z.of_nat (2 ^ k)) x0 0 W 0 (List.map (fun v => (v * 2 ^ 32) / p) W) 0 p = out 32 /\
-     GenLoop.gen_ntt_avx2_u32 (Z.of_nat (2 ^ k)) x0 0 W 0 (List.map (fun v => (v * 2 ^ 32) / p) W) 0 p = out 32) /\
-  (4 * p <= 2 ^ 64 -> List.Forall (fun v => 0 <= v < 2 ^ 64) x0 ->
-     GenLoop.gen_ntt_serial_u64 (Z.of_nat (2 ^ k)) x0 0 W 0 (List.map (fun v => (v * 2 ^ 64) / p) W) 0 p = out 64 /\
-     GenLoop.gen_ntt_sse_u64 (Z.of_nat (2 ^ k)) x0 0 W 0 (List.map (fun v => (v * 2 ^ 64) / p) W) 0 p = out 64 /\
-     GenLoop.gen_ntt_avx2_u64 (Z.of_nat (2 ^ k)) x0 0 W 0 (List.map (fun v => (v * 2 ^ 64) / p) W) 0 p = out 64).
+  (p < 2 ^ 14 -> List.Forall (fun v => 0 <= v < 2 ^ 16) padW' -> List.Forall (fun v => 0 <= v < 2 ^ 16) x0 ->
+     GenLoop.gen_ntt_serial_u16 (Z.of_nat (2 ^ k)) x0 0 W 0 (W' 16) 0 p = out 16 /\
+     GenLoop.gen_ntt_sse_u16 (Z.of_nat (2 ^ k)) x0 0 W 0 (W' 16) 0 p = out 16 /\
+     GenLoop.gen_ntt_avx2_u16 (Z.of_nat (2 ^ k)) x0 0 W 0 (W' 16) 0 p = out 16) /\
+  (4 * p <= 2 ^ 32 -> List.Forall (fun v => 0 <= v < 2 ^ 32) padW' -> List.Forall (fun v => 0 <= v < 2 ^ 32) x0 ->
+     GenLoop.gen_ntt_serial_u32 (Z.of_nat (2 ^ k)) x0 0 W 0 (W' 32) 0 p = out 32 /\
+     GenLoop.gen_ntt_sse_u32 (Z.of_nat (2 ^ k)) x0 0 W 0 (W' 32) 0 p = out 32 /\
+     GenLoop.gen_ntt_avx2_u32 (Z.of_nat (2 ^ k)) x0 0 W 0 (W' 32) 0 p = out 32) /\
+  (4 * p <= 2 ^ 64 -> List.Forall (fun v => 0 <= v < 2 ^ 64) padW' -> List.Forall (fun v => 0 <= v < 2 ^ 64) x0 ->
+     GenLoop.gen_ntt_serial_u64 (Z.of_nat (2 ^ k)) x0 0 W 0 (W' 64) 0 p = out 64 /\
+     GenLoop.gen_ntt_sse_u64 (Z.of_nat (2 ^ k)) x0 0 W 0 (W' 64) 0 p = out 64 /\
+     GenLoop.gen_ntt_avx2_u64 (Z.of_nat (2 ^ k)) x0 0 W 0 (W' 64) 0 p = out 64).
 Proof. exact GenLoopSimd.source_loops_all_builds. Qed.
 Print Assumptions C05_source_loops_all_builds.
